@@ -898,3 +898,254 @@ theorem step_terminal (s : PState) (e : PEvent) (h : LifeInv s) (k : String) (ht
       · rfl
     · rfl
   | advance d => rfl
+
+/-! ### an application's identity never changes (C04) -/
+
+def appCfg (s : PState) (h : String) : Option AppCfg := (getApp s h).map (·.cfg)
+
+theorem appCfg_congr {s1 s2 : PState} (h : s1.apps = s2.apps) (k : String) : appCfg s1 k = appCfg s2 k := by
+  unfold appCfg getApp; rw [h]
+
+theorem appCfg_setApp (s : PState) (k : String) (a : AppM) (h : String) :
+    appCfg (setApp s k a) h = if h = k then some a.cfg else appCfg s h := by
+  unfold appCfg
+  by_cases hk : h = k
+  · subst hk; simp [getApp_setApp_same]
+  · simp [hk, getApp_setApp_ne s k h a hk]
+
+/-- writing an application back with the same description leaves every description as it was -/
+theorem appCfg_setApp_same (s : PState) (k : String) (a a' : AppM) (ha : getApp s k = some a) (hc : a'.cfg = a.cfg)
+    (h : String) : appCfg (setApp s k a') h = appCfg s h := by
+  rw [appCfg_setApp]
+  split
+  · next hk => subst hk; simp [appCfg, ha, hc]
+  · rfl
+
+/-- identity is stable: a known application keeps its description -/
+def CfgStable (s s' : PState) : Prop := ∀ h c, appCfg s h = some c → appCfg s' h = some c ∨ appCfg s' h = none
+
+theorem cfgStable_of_eq {s s' : PState} (h : ∀ k, appCfg s' k = appCfg s k) : CfgStable s s' :=
+  fun k c hk => Or.inl (by rw [h, hk])
+
+theorem considerConnect_cfg (s : PState) (k : String) (h : String) : appCfg (considerConnect s k).1 h = appCfg s h := by
+  unfold considerConnect
+  split
+  · rfl
+  · next app ha =>
+    split
+    · show appCfg (setApp s k _) h = _
+      rw [appCfg_setApp]
+      split
+      · rename_i hk; subst hk; simp [appCfg, ha]
+      · rfl
+    · rfl
+
+theorem processTxn_cfg (s : PState) (r : String) (t : TxnM) (h : String) : appCfg (processTxn s r t) h = appCfg s h := by
+  unfold processTxn
+  split
+  · rfl
+  · next run hr =>
+    dsimp only
+    split
+    · rfl
+    · next app ha =>
+      have ha' : getApp s run.app = some app := ha
+      show appCfg (setApp _ run.app _) h = _
+      rw [appCfg_setApp]
+      split
+      · next hk => subst hk; simp [appCfg, ha']
+      · rfl
+
+theorem connectFailed_cfg (s : PState) (k : String) (o : Outcome) (h : String) : appCfg (connectFailed s k o) h = appCfg s h := by
+  unfold connectFailed
+  split
+  · rfl
+  · next app ha =>
+    split
+    · rfl
+    · dsimp only
+      rw [appCfg_setApp]
+      split
+      · rename_i hk; subst hk; simp [appCfg, ha]
+      · rfl
+
+theorem connectOk_cfg (s : PState) (k coll run : String) (cfg : RunCfg) (h : String) :
+    appCfg (connectOk s k coll run cfg) h = appCfg s h := by
+  unfold connectOk
+  split
+  · rfl
+  · next app ha =>
+    split
+    · rfl
+    · dsimp only
+      show appCfg (setApp s k _) h = _
+      rw [appCfg_setApp]
+      split
+      · rename_i hk; subst hk; simp [appCfg, ha]
+      · rfl
+
+theorem processAppInfo_cfg (s : PState) (rid : Option String) (cfg : AppCfg) :
+    CfgStable s (processAppInfo s rid cfg).1 ∧
+    (∀ h c, appCfg (processAppInfo s rid cfg).1 h = some c → appCfg s h = some c ∨ (h = cfg.handle ∧ c = cfg ∧ appCfg s h = none)) := by
+  rcases processAppInfo_state s rid cfg with h0 | ⟨app, ha, h1⟩ | ⟨hn, h2⟩
+  · rw [h0]; exact ⟨fun _ _ hk => Or.inl hk, fun _ _ hk => Or.inl hk⟩
+  · rw [h1]
+    have key : ∀ k, appCfg (considerConnect (setApp s cfg.handle { app with lastActivity := s.now }) cfg.handle).1 k = appCfg s k := by
+      intro k
+      rw [considerConnect_cfg, appCfg_setApp]
+      split
+      · rename_i hk; subst hk; simp [appCfg, ha]
+      · rfl
+    exact ⟨cfgStable_of_eq key, fun k c hk => Or.inl (by rw [← key]; exact hk)⟩
+  · rw [h2]
+    have key : ∀ k, appCfg (considerConnect (setApp s cfg.handle { cfg := cfg, lastActivity := s.now }) cfg.handle).1 k =
+        if k = cfg.handle then some cfg else appCfg s k := by
+      intro k
+      rw [considerConnect_cfg, appCfg_setApp]
+    refine ⟨fun k c hk => Or.inl ?_, fun k c hk => ?_⟩
+    · rw [key]
+      split
+      · next e => subst e; simp [appCfg, hn] at hk
+      · exact hk
+    · rw [key] at hk
+      split at hk
+      · next e => injection hk with hk; exact Or.inr ⟨e, hk.symm, by subst e; simp [appCfg, hn]⟩
+      · exact Or.inl hk
+
+theorem harvestVerdict_cfg (s : PState) (r : Req) (o : Outcome) (k : String) :
+    appCfg (harvestVerdict s r o).1 k = appCfg s k := by
+  unfold harvestVerdict
+  split
+  · rfl
+  · next run hr =>
+    dsimp only
+    split
+    · rfl
+    · next app ha =>
+      have ha' : getApp s run.app = some app := ha
+      split
+      · show appCfg (delRun (setApp (setRun s r.run _) run.app _) r.run) k = _
+        show appCfg (setApp (setRun s r.run _) run.app _) k = _
+        rw [appCfg_setApp]
+        split
+        · rename_i hk; subst hk; simp [appCfg, ha']
+        · rfl
+      · split
+        · rw [considerConnect_cfg]
+          show appCfg (setApp (setRun s r.run _) run.app _) k = _
+          rw [appCfg_setApp]
+          split
+          · rename_i hk; subst hk; simp [appCfg, ha']
+          · rfl
+        · rfl
+
+theorem harvestReply_cfg (s : PState) (r : Req) (o : Outcome) (k : String) :
+    appCfg (harvestReply s r o).1 k = appCfg s k := by
+  obtain ⟨ha, _⟩ := harvestReply_frame s r o
+  refine (appCfg_congr ha k).trans ?_
+  split
+  · rfl
+  · exact harvestVerdict_cfg (bookReply s r) r o k
+
+theorem harvestByType_cfg (s : PState) (runId : String) (run : RunM) (app : AppM) (cfg : RunCfg) (mask : Nat) (a : HArgs)
+    (ha : getApp s run.app = some app) (k : String) :
+    appCfg (harvestByType s runId run app cfg mask a).1 k = appCfg s k := by
+  unfold harvestByType
+  split
+  · unfold harvestAllPart
+    dsimp only
+    refine (appCfg_congr (s2 := setApp s run.app { app with seenPkgs := (match run.h.pkgs with
+        | none => (app.seenPkgs, ([] : List Pkg))
+        | some l => filterPkgs app.seenPkgs l).1 }) (by rw [(considerMany_frame _ _ _).1]; rfl) k).trans ?_
+    rw [appCfg_setApp]
+    split
+    · rename_i hk; subst hk; simp [appCfg, ha]
+    · rfl
+  · unfold harvestTypesPart
+    dsimp only
+    refine (appCfg_congr (finishTypes_frame _ _ _ _ _ _).1 k).trans ?_
+    refine (appCfg_congr (setApp_apps_congr (s2 := s) (by simp only [(evStep_frame _ _ _ _ _).1]) _ _) k).trans ?_
+    rw [appCfg_setApp]
+    split
+    · rename_i hk
+      subst hk
+      simp only [appCfg, ha, Option.map_some]
+      split <;> rfl
+    · rfl
+
+theorem doHarvest_cfg (s : PState) (runId : String) (run : RunM) (mask : Nat) (hr : getRun s runId = some run) :
+    CfgStable s (doHarvest s runId run mask).1 ∧
+    (∀ k c, appCfg (doHarvest s runId run mask).1 k = some c → appCfg s k = some c) := by
+  unfold doHarvest
+  split
+  · exact ⟨fun _ _ h => Or.inl h, fun _ _ h => h⟩
+  · next app ha =>
+    split
+    · -- inactive: the application is forgotten
+      have key : ∀ k, appCfg ({ (delRun s runId) with apps := (delRun s runId).apps.filter (·.1 != run.app) } : PState) k =
+          if k = run.app then none else appCfg s k := by
+        intro k
+        show ((((delRun s runId).apps.filter (·.1 != run.app)).find? (·.1 == k)).map (·.2)).map (·.cfg) = _
+        rw [getApp_filterOut]
+        split <;> rfl
+      refine ⟨fun k c hk => ?_, fun k c hk => ?_⟩
+      · rw [key]; split
+        · exact Or.inr rfl
+        · exact Or.inl hk
+      · rw [key] at hk
+        split at hk
+        · cases hk
+        · exact hk
+    · split
+      · exact ⟨fun _ _ h => Or.inl h, fun _ _ h => h⟩
+      · next cfg _ =>
+        dsimp only
+        have hp : ∀ k, appCfg (harvestByType s runId run app cfg mask
+            { run := runId, license := app.cfg.license, collector := app.collector, hdr := cfg.hdr, lang := app.cfg.lang,
+              rules := cfg.rules, split := app.cfg.dt, maxPayload := cfg.maxPayload, group := 0 }).1 k = appCfg s k :=
+          fun k => harvestByType_cfg s runId run app cfg mask _ ha k
+        split
+        · refine ⟨fun k c hk => Or.inl ?_, fun k c hk => ?_⟩
+          · rw [appCfg_congr (settleGroup_frame _ _).1 k, hp k]; exact hk
+          · rw [appCfg_congr (settleGroup_frame _ _).1 k, hp k] at hk; exact hk
+        · exact ⟨cfgStable_of_eq hp, fun k c hk => by rw [← hp]; exact hk⟩
+
+/-- no event of the processor loop changes the description (license, name, redirect collector, high-security flag,
+language, host, …) of an application it knows; an application is only ever forgotten (inactivity) or newly announced -/
+theorem step_cfg (s : PState) (e : PEvent) : CfgStable s (s.step e) := by
+  cases e with
+  | appInfo rid cfg => exact (processAppInfo_cfg s rid cfg).1
+  | txn r t => exact cfgStable_of_eq (processTxn_cfg s r t)
+  | harvest r mask =>
+    simp only [PState.step]
+    split
+    · next run hr => exact (doHarvest_cfg s r run mask hr).1
+    · exact fun _ _ h => Or.inl h
+  | harvestReply id o =>
+    simp only [PState.step]
+    split
+    · split
+      · exact cfgStable_of_eq (harvestReply_cfg s _ o)
+      · exact fun _ _ h => Or.inl h
+    · exact fun _ _ h => Or.inl h
+  | preconnectReply id o host =>
+    simp only [PState.step]
+    split
+    · next r _ =>
+      split
+      · rcases preconnectReply_split s r o host with ⟨ha, _⟩ | heq
+        · exact cfgStable_of_eq (fun k => appCfg_congr ha k)
+        · rw [heq]; exact cfgStable_of_eq (fun k => connectFailed_cfg _ _ _ k)
+      · exact fun _ _ h => Or.inl h
+    · exact fun _ _ h => Or.inl h
+  | connectReply id o good =>
+    simp only [PState.step]
+    split
+    · next r _ =>
+      split
+      · rcases connectReplyEv_split s r o good with ⟨runId, cfg, heq⟩ | ⟨o', heq⟩
+        · rw [heq]; exact cfgStable_of_eq (fun k => connectOk_cfg _ _ _ _ _ k)
+        · rw [heq]; exact cfgStable_of_eq (fun k => connectFailed_cfg _ _ _ k)
+      · exact fun _ _ h => Or.inl h
+    · exact fun _ _ h => Or.inl h
+  | advance d => exact fun _ _ h => Or.inl h
